@@ -8,6 +8,8 @@
    [flag_at f0 before i] is the flag of i after the events [before]: its last flip, else the initial value.
    [GenFail i p]: a generation attempt on path p whose State read fails (the failure is an input, like the flag). *)
 From CR Require Import Model.Forwarding.
+(* the wiring in main() the model takes for granted (one State, one Metrics, epoch = start, Serve error fatal): Properties/Main.v *)
+From CR Require Properties.Main.
 From CR Require Import Proofs.Forwarding.
 Local Open Scope Z_scope.
 
